@@ -846,6 +846,11 @@ pub fn scen_history(initial: &Model, ops: &[Op], setup: &Setup, out: &mut Out) {
 // ---------------------------------------------------------------------------------------------
 
 pub fn scen_tap(m: &Model, setup: &Setup, iterate_k: usize, out: &mut Out) {
+    scen_tap_probes(m, setup, iterate_k, if iterate_k == 1 { 24 } else { 8 }, out)
+}
+
+/// `probes`: number of short solves under random bound assumptions made before the enumeration
+pub fn scen_tap_probes(m: &Model, setup: &Setup, iterate_k: usize, probes: usize, out: &mut Out) {
     use pumpkin_solver::verif_hooks::*;
     use std::collections::BTreeSet;
     let solver = Solver::with_options(setup.opts.to_solver_options());
@@ -857,6 +862,51 @@ pub fn scen_tap(m: &Model, setup: &Setup, iterate_k: usize, out: &mut Out) {
     if let Some(i) = built.failed_at {
         out.meta(format!("posterr at={} kind={}", i, m.cons[i].full_kind()));
     } else {
+        // Probing: short solves under random bound assumptions. Every assumption is a decision, so
+        // the propagators run (and explain) in many states that are *not* root states — e.g. with a
+        // variable made non-negative by a decision although its domain has negative values.
+        {
+            let mut pr = crate::rng::Rng::new(setup.style_seed ^ 0x9e37_79b9);
+            for _ in 0..probes {
+                let mut preds: Vec<Predicate> = vec![];
+                for (x, d) in m.vars.iter().enumerate() {
+                    if pr.chance(1, 2) {
+                        let v = d.values[pr.usize(d.values.len())];
+                        let a = match pr.below(5) {
+                            0 | 1 => Atom::Ge(x, v),
+                            2 | 3 => Atom::Le(x, v),
+                            _ => Atom::Ne(x, v),
+                        };
+                        preds.push(built.vars.pred(&a));
+                    }
+                }
+                pr.shuffle(&mut preds);
+                let mut brancher = make_brancher(&setup.bspec, &built.solver, &built.vars.ids);
+                // poll i comes before the propagation of decision i: let all assumptions (and sometimes
+                // a few decisions of the brancher) be propagated
+                let mut term = StopAt::at(preds.len() as u64 + 1 + pr.below(3));
+                let r = catch_unwind(AssertUnwindSafe(|| {
+                    let res = built.solver.satisfy_under_assumptions(&mut brancher, &mut term, &preds);
+                    if std::env::var_os("PHARNESS_EAGER").is_some() {
+                        eprintln!(
+                            "# probe {} assumptions -> {}",
+                            preds.len(),
+                            match res {
+                                SatisfactionResultUnderAssumptions::Satisfiable(_) => "sat",
+                                SatisfactionResultUnderAssumptions::UnsatisfiableUnderAssumptions(_) => "unsat-under-assumptions",
+                                SatisfactionResultUnderAssumptions::Unsatisfiable => "unsat",
+                                SatisfactionResultUnderAssumptions::Unknown => "unknown",
+                            }
+                        );
+                    }
+                }));
+                if r.is_err() {
+                    // panics under assumptions are C05 / C10 business (known findings there); the
+                    // solver may be in an undefined state now, so stop probing this case
+                    break;
+                }
+            }
+        }
         let mut brancher = make_brancher(&setup.bspec, &built.solver, &built.vars.ids);
         let mut term = StopAt::never();
         let mut it = built.solver.get_solution_iterator(&mut brancher, &mut term);
@@ -914,7 +964,7 @@ pub fn scen_tap(m: &Model, setup: &Setup, iterate_k: usize, out: &mut Out) {
             _ if iterate_k <= 1 => format!("minfer {}:{} {} {}", kind, name, fmt_atoms(&prem), concl_s),
             _ => continue,
         };
-        if seen.len() < 400 && seen.insert(line.clone()) {
+        if seen.len() < 400 + 30 * probes && seen.insert(line.clone()) {
             out.push(line);
         }
         // exact correspondence of the implicit reasons with Model/ImplicitReason.lean
@@ -925,7 +975,7 @@ pub fn scen_tap(m: &Model, setup: &Setup, iterate_k: usize, out: &mut Out) {
                 let mut qs = String::new();
                 q.emit(&mut qs);
                 let line = format!("implicit{}{} {}", t, qs, fmt_atoms(&prem));
-                if seen.len() < 600 && seen.insert(line.clone()) {
+                if seen.len() < 600 + 30 * probes && seen.insert(line.clone()) {
                     out.push(line);
                 }
             }
